@@ -782,7 +782,11 @@ class Dict(dict, base.Symbolic, pg_typing.CustomTyping):
           '\'popitem\' cannot be performed on a Dict with value spec.')
     if base.treats_as_sealed(self):
       raise base.WritePermissionError('Cannot pop item from a sealed Dict.')
-    return super().popitem()
+    key, value = super().popitem()
+    # Detach the removed value from the object tree.
+    if isinstance(value, base.TopologyAware):
+      value.sym_setparent(None)
+    return key, value
 
   def clear(self) -> None:
     """Removes all the keys in current dict."""
@@ -790,6 +794,10 @@ class Dict(dict, base.Symbolic, pg_typing.CustomTyping):
       raise base.WritePermissionError('Cannot clear a sealed Dict.')
     value_spec = self._value_spec
     self._value_spec = None
+    # Detach the removed values from the object tree.
+    for v in self.sym_values():
+      if isinstance(v, base.TopologyAware):
+        v.sym_setparent(None)
     super().clear()
 
     if value_spec:
